@@ -126,8 +126,15 @@ func TestC16(t *testing.T) {
 				f.Reset()
 				val := mkValue(uint32(vl*7+kl), vl)
 				flags := uint32(vl ^ kl<<8)
+				// the expiry asked for must not matter to how an item is laid out
+				ttl := ttlOf((kl+vl+len(path))%len(ttlClassNames), nowUnix())
 				var want []byte
 				run := func(c wire.Cmd) {
+					// only the store under test (the command that writes the final layout)
+					// carries the drawn expiry; a base item that is appended to must stay alive
+					if (c.Kind == wire.Set && path == "set") || (c.Kind == wire.Add && path == "add") || (c.Kind == wire.Replace && path == "replace") {
+						c.Exptime = ttl
+					}
 					res, intact := execHandler(h, c, kl%3*4)
 					if res.Err != nil {
 						t.Fatalf("C16 keylen %d valuelen %d path %s: %s failed: %v", kl, vl, path, c.Kind, res.Err)
@@ -233,7 +240,12 @@ func TestC16Replay(t *testing.T) {
 		f.ResetLog()
 		execHandler(h, wire.Cmd{Kind: wire.Append, Key: key, Value: val[c.Valuelen/3:]}, 0)
 	} else {
-		execHandler(h, wire.Cmd{Kind: wire.Set, Key: key, Value: val, Flags: 9}, 0)
+		// the same expiry as in the enumeration (set/add/replace paths)
+		ttl := uint32(0)
+		if c.Path == "set" || c.Path == "add" || c.Path == "replace" {
+			ttl = ttlOf((c.Keylen+c.Valuelen+len(c.Path))%len(ttlClassNames), nowUnix())
+		}
+		execHandler(h, wire.Cmd{Kind: wire.Set, Key: key, Value: val, Flags: 9, Exptime: ttl}, 0)
 	}
 	if msg := c16Check(f.Log(), key, val, 9); msg != "" {
 		t.Fatalf("C16 replay keylen %d valuelen %d: %s", c.Keylen, c.Valuelen, msg)
